@@ -428,6 +428,38 @@ def real_tool(ctx):
     return rc
 
 
+def copy_like(ctx):
+    """cp / ln as used by copy_file rules and custom commands: the real tool,
+    then the destination gets the next logical tick - unless the tool was
+    asked to preserve times (cp -p/-a) or makes a hard link (shared inode) -
+    and the step is logged like any other."""
+    argv = ctx.argv
+    real = '/usr/bin/' + ctx.tool
+    rc = os.spawnv(os.P_WAIT, real, [real] + argv)
+    if rc != 0:
+        return rc
+    flags = [a for a in argv if a.startswith('-')]
+    paths = [a for a in argv if not a.startswith('-')]
+    if len(paths) < 2:
+        return 0
+    dst = paths[-1]
+    if os.path.isdir(dst) and not os.path.islink(dst):
+        dst = os.path.join(dst, os.path.basename(paths[0]))
+    preserve = any(a.startswith('--preserve') or a == '--archive' or
+                   (not a.startswith('--') and ('p' in a or 'a' in a))
+                   for a in flags)
+    symbolic = any(a == '--symbolic' or (not a.startswith('--') and 's' in a)
+                   for a in flags)
+    if ctx.tool == 'cp' and not preserve or ctx.tool == 'ln' and symbolic:
+        tick = ctx.next_tick()
+        ns = (EPOCH + tick) * NS
+        os.utime(dst, ns=(ns, ns), follow_symlinks=False)
+    ctx.reads = [ctx.rel(p) for p in paths[:-1]]
+    ctx.writes = [ctx.rel(dst)]
+    ctx.log(0, 'real')
+    return 0
+
+
 def patchelf_like(ctx):
     # install-time rpath fix-ups of stub "binaries": nothing to do
     if '--version' in ctx.argv:
@@ -436,6 +468,7 @@ def patchelf_like(ctx):
 
 
 TOOLS = {
+    'cp': copy_like, 'ln': copy_like,
     'patchelf': patchelf_like,
     'cc': gcc_like, 'c++': gcc_like, 'gcc': gcc_like, 'g++': gcc_like,
     'ar': ar_like, 'simtool': simtool, 'cl': cl_like, 'link': link_like,
